@@ -57,7 +57,8 @@ TRANSLATOR_NAME = "harness/translate/c17_tables.py"
 RULE = ("seeded random importable packages (7-9 modules over 3 nesting levels, every definition form, signatures from C02's count vectors, "
         "1-2 level inheritance incl. imported bases, docstrings of random indentation shapes, absolute/relative/as-named imports of classes, "
         "functions, coroutines, modules and values from lower modules incl. re-export chains, class-body imports, __all__, optional "
-        "underscore twin modules), loaded statically and dynamically; plus a zoo of live objects for every ladder rung; exhaustive "
+        "underscore twin modules, optional modules named like the stdlib / top-level module they import from, quoted annotations that do not "
+        "resolve at runtime incl. TYPE_CHECKING-only imports and nested-class forward references), loaded statically and dynamically; plus a zoo of live objects for every ladder rung; exhaustive "
         "relative-import grid depth<=4 x level<=5; random docstring line lists; random dotted paths. non-trivial package = has at least one "
         "import chain and one class with methods; distinct by rendered source")
 TRUSTED = ["translator harness/translate/c17_tables.py (whitelisted AST shapes of runtime.py / inspector.py / visitor.py / enumerations.py; fails closed)",
@@ -1228,6 +1229,8 @@ def check_same_components(ctx, n):
     for _ in range(n):
         x = [ctx.rng.choice(comps) for _ in range(ctx.rng.randint(1, 3))]
         y = list(x) if ctx.rng.random() < 0.5 else [ctx.rng.choice(comps) for _ in range(ctx.rng.randint(1, 3))]
+        if ctx.rng.random() < 0.2 and len(x) > 1:
+            y = x[ctx.rng.randint(1, len(x) - 1):]            # a dotted suffix (pkg.logging vs logging)
         if ctx.rng.random() < 0.5:
             y = [("_" + c if ctx.rng.random() < 0.4 else c.lstrip("_") if ctx.rng.random() < 0.4 else c) for c in y]
         pairs.append((x, y))
